@@ -21,6 +21,8 @@ DATES = [DT(2019, 12, 31), datetime.date(2020, 1, 1), DT(2020, 1, 1), DT(2020, 1
 BOOLS = [True, False]
 BLANK = None
 ALPHABET = NUMS + TEXTS + DATES + [BLANK] + BOOLS
+EXTRA = [' a', 'a ', 'A', 'aB', 'z', '-1', '0', '-0.5', 2 ** 53 + 2, -(2 ** 53) - 2, 1e-300, 123456789.123456, 123456789.123457, -0.3, -(0.1 + 0.2),
+         DT(2020, 1, 1, 0, 0, 1), DT(1900, 1, 1), DT(9999, 12, 31)]
 QUICK_NUMS = [-10, -1, 0, 1, 2, 10, 0.5, 1.2, 1.7, -0.5, -1.5, 0.1 + 0.2, 0.3, 1e15 + 0.5]
 QUICK = QUICK_NUMS + ['', 'a', 'B', '10', '9'] + DATES[:4] + [BLANK] + BOOLS
 
@@ -43,7 +45,7 @@ def kind(v):
 
 
 def plan(tier, seed):
-    alpha = ALPHABET if tier == 'thorough' else QUICK
+    alpha = ALPHABET + EXTRA if tier == 'thorough' else ALPHABET
     pairs = [(a, b) for a in alpha for b in alpha]
     phases = []
     for src in ('ov', 'cell', 'lit'):
@@ -55,6 +57,15 @@ def plan(tier, seed):
                     continue
                 yield {'a': D.enc(a), 'b': D.enc(b), 'src': src}
         phases.append({'name': 'pairs-' + src, 'cases': gen(), 'runner': 'run_' + src, 'chunk': 150})
+
+    def gen_mix():
+        for a, b in pairs:
+            for side in ('lit-cell', 'cell-lit', 'lit-ov', 'ov-lit'):
+                l, c = (a, b) if side.startswith('lit') else (b, a)
+                if lit(l) is None or (side.endswith('cell') or side.startswith('cell')) and not storable(c):
+                    continue
+                yield {'a': D.enc(a), 'b': D.enc(b), 'src': side}
+    phases.append({'name': 'pairs-mixed-sources', 'cases': gen_mix(), 'runner': 'run_mix', 'chunk': 150})
     return phases
 
 
@@ -144,6 +155,8 @@ def judge(a, b, res, desc_base):
             law('lt_iff_swapped_gt', v['<'] == v['swap>'])
             if ka == 'blank':
                 law('blank_eq_blank', v['='] is True)
+            if ka == 'text' and a == b:
+                law('text_eq_itself', v['='] is True)
             if ka == 'date':
                 da = a if isinstance(a, DT) else DT(a.year, a.month, a.day)
                 db = b if isinstance(b, DT) else DT(b.year, b.month, b.day)
@@ -238,3 +251,34 @@ def run_lit(cases, stats):
     raw = D.eval_items(items, stats=stats)
     results = [{k: r[FCOL[k] + '@0'] for k in FORMS} for r in raw]
     return _finish(cases, results, stats, 'lit')
+
+
+def run_mix(cases, stats):
+    """One operand is a literal in the formula text, the other a workbook constant or an override."""
+    items = []
+    for c in cases:
+        a, b = D.dec(c['a']), D.dec(c['b'])
+        side = c['src']
+        lit_left = side.startswith('lit')
+        la, lb = (lit(a), 'B@0') if lit_left else ('A@0', lit(b))
+        f = {FCOL[op] + '@0': f'={la}{op}{lb}' for op in OPS}
+        f['I@0'] = f'={lb}>{la}'
+        other_addr, other = ('B@0', b) if lit_left else ('A@0', a)
+        it = {'f': f}
+        if other is not None:
+            if side.endswith('ov') or side.startswith('ov'):
+                it['ov'] = {other_addr: other}
+                it['cells'] = {other_addr: 424242}
+            else:
+                it['cells'] = {other_addr: other}
+        items.append(it)
+    raw = D.eval_items(items, stats=stats)
+    results = [{k: r[FCOL[k] + '@0'] for k in FORMS} for r in raw]
+    vio = []
+    for src in ('lit-cell', 'cell-lit', 'lit-ov', 'ov-lit'):
+        idx = [i for i, c in enumerate(cases) if c['src'] == src]
+        sub = _finish([cases[i] for i in idx], [results[i] for i in idx], stats, src)
+        for v in sub:
+            v['i'] = idx[v['i']]
+        vio.extend(sub)
+    return vio
